@@ -322,10 +322,20 @@ var specs = map[string]buildSpec{
 	"shim":         {name: "shim", overlay: "shim"},
 	"386":          {name: "386", overlay: "globals", goarch: "386"},
 	"amd64v3":      {name: "amd64v3", overlay: "globals", goenv: []string{"GOAMD64=v3"}},
+	"amd64v4":      {name: "amd64v4", overlay: "globals", goenv: []string{"GOAMD64=v4"}},
+}
+
+// hostRunsAMD64v4 reports whether this machine can execute GOAMD64=v4 binaries.
+func hostRunsAMD64v4() bool {
+	return hostRunsAMD64v3() && cpuHas("avx512f", "avx512bw", "avx512cd", "avx512dq", "avx512vl")
 }
 
 // hostRunsAMD64v3 reports whether this machine can execute GOAMD64=v3 binaries.
 func hostRunsAMD64v3() bool {
+	return cpuHas("avx", "avx2", "bmi1", "bmi2", "f16c", "fma", "abm", "movbe", "xsave")
+}
+
+func cpuHas(want ...string) bool {
 	b, err := os.ReadFile("/proc/cpuinfo")
 	if err != nil || runtime.GOARCH != "amd64" {
 		return false
@@ -337,7 +347,7 @@ func hostRunsAMD64v3() bool {
 			break
 		}
 	}
-	for _, f := range []string{"avx", "avx2", "bmi1", "bmi2", "f16c", "fma", "abm", "movbe", "xsave"} {
+	for _, f := range want {
 		if !strings.Contains(flags, " "+f+" ") {
 			return false
 		}
